@@ -47,6 +47,12 @@ fn gen_surface(rng: &mut Rng) -> String {
     for _ in 0..n {
         s.push(*rng.pick(TRAIN_CHARS));
     }
+    if rng.chance(1, 40) {
+        // a carriage return inside a surface (legal in a quoted CSV cell and inside a corpus line)
+        let idx = s.char_indices().nth(1).map(|x| x.0).unwrap_or(s.len());
+        s.insert(idx, '\r');
+        s.push('z');
+    }
     if s.trim().is_empty() {
         s.push('a');
     }
@@ -125,6 +131,8 @@ pub fn gen_train_world(rng: &mut Rng, plan: &mut Plan) {
         "B5:%L[0],%L?[2]/%R[0],%R?[1]",
         "B6:%L[1]/%R[1]",
         "B7:lit/%R[0]",
+        // spaces around the slash: the left features end and the right features start with a blank
+        "B8:%L[0] / B8:%R[0]",
     ];
     let n_bi = 1 + rng.usize(6);
     let mut idx: Vec<usize> = (0..bi.len()).collect();
@@ -136,6 +144,13 @@ pub fn gen_train_world(rng: &mut Rng, plan: &mut Plan) {
     }
     for &i in idx.iter().take(n_bi) {
         fd.push_str(&format!("BIGRAM {}\n", bi[i]));
+    }
+    // more than eight templates now and then: only then does a dual connector compiled from the
+    // emitted bigram files have a non-trivial pre-summed matrix part
+    if rng.chance(1, 10) {
+        for i in 0..4 + rng.usize(6) {
+            fd.push_str(&format!("BIGRAM T{i}:%L[{}]/T{i}:%R[{}]\n", i % 3, (i + 1) % 3));
+        }
     }
     // rewrite.def
     let mut rw = String::new();
@@ -185,7 +200,16 @@ pub fn gen_train_world(rng: &mut Rng, plan: &mut Plan) {
     }
     // user lexicon for the model: rows to be given trained parameters and rows kept as they are
     let mut user = vec![];
+    let twins = rng.chance(1, 3);
     for _ in 0..1 + rng.usize(4) {
+        if twins && rng.chance(1, 2) {
+            // exact duplicates of seed words asking for trained parameters; several of them often
+            // share one feature string while their surfaces start with different character types
+            let (s, f) = rng.pick(&seeds).clone();
+            let s = if rng.chance(1, 3) { gen_surface(rng) } else { s };
+            user.push(format!("{},0,0,0,{}", csv_quote(&s), f));
+            continue;
+        }
         let s = if rng.chance(1, 2) {
             rng.pick(&seeds).0.clone()
         } else {
@@ -274,7 +298,9 @@ pub fn train(plan: &Plan, ctx: &mut Ctx) -> Result<Option<Model>, Violation> {
         .collect();
     let max_iter = plan.param("max_iter").clamp(1, 100) as u64;
     let (tx, rx) = std::sync::mpsc::channel();
+    let hash_key = crate::hashseam::plan_key(plan.seed, plan.run) ^ 0x7472_6169_6e;
     let spawned = std::thread::Builder::new().name("train".into()).spawn(move || {
+        crate::hashseam::begin_run(hash_key);
         let r = catch(|| -> Result<Model, String> {
             let config = TrainerConfig::from_readers(
                 files[0].as_slice(),
@@ -355,7 +381,7 @@ pub fn write_dictionary(model: &mut Model, op: Option<&Op>, ctx: &mut Ctx) -> (S
     let mut s4 = FaultySink::new(&f4);
     let r = catch(|| {
         model
-            .write_dictionary(&mut s1, &mut s2, &mut s3, &mut s4)
+            .write_dictionary(crate::io::hand(&mut s1), crate::io::hand(&mut s2), crate::io::hand(&mut s3), crate::io::hand(&mut s4))
             .map_err(|e| e.to_string())
     });
     let mut hard = false;
@@ -385,7 +411,7 @@ pub fn write_bigram_details(model: &mut Model, op: Option<&Op>, ctx: &mut Ctx) -
     let mut s3 = FaultySink::new(&f3);
     let r = catch(|| {
         model
-            .write_bigram_details(&mut s1, &mut s2, &mut s3)
+            .write_bigram_details(crate::io::hand(&mut s1), crate::io::hand(&mut s2), crate::io::hand(&mut s3))
             .map_err(|e| e.to_string())
     });
     let mut hard = false;
@@ -638,10 +664,25 @@ fn check_dictionary_image(plan: &Plan, model: &Model, files: &DictFiles, ctx: &m
     if out.len() != entries.len() {
         return Err(Violation::new("C14.user.rows", format!("user file has {} rows for {} user entries", out.len(), entries.len())));
     }
+    // independent of the label the model stored for the row: a row that duplicates a seed word
+    // (same surface, same feature string) and asks for trained parameters is the same word, so it
+    // must get that word's cost (the class ids may be numbered differently)
+    let emitted_lex: Vec<_> = nonempty_lines(&files.lex).iter().filter_map(|l| split_lex_row(l)).collect();
     for (k, (line, e)) in out.iter().zip(&entries).enumerate() {
         let Some((surface, [l, r, c], feature)) = split_lex_row(line) else {
             return Err(Violation::new("C14.user.format", format!("row {k} {line:?} is malformed")));
         };
+        if e.2 == (0, 0, 0) {
+            if let Some(twin) = emitted_lex.iter().find(|t| t.0 == surface && t.2 == feature) {
+                ctx.count("probe.user_row_duplicates_seed_word");
+                if twin.1[2] != c {
+                    return Err(Violation::new(
+                        "C14.user.twin",
+                        format!("user row {k} {line:?} (given as 0,0,0) is the same word as the seed row with cost {}, but got cost {c}", twin.1[2]),
+                    ));
+                }
+            }
+        }
         if surface != e.0 || feature != e.1 {
             return Err(Violation::new("C14.user.text", format!("row {k} {line:?}: surface/feature differ from the entry ({:?},{:?})", e.0, e.1)));
         }
@@ -924,6 +965,7 @@ impl Scenario for ExportScenario {
             probes: vec![
                 "probe.user_row_trained",
                 "probe.user_row_kept",
+                "probe.user_row_duplicates_seed_word",
                 "probe.words_sharing_a_class",
                 "probe.max_weight_is_unigram",
                 "probe.max_weight_is_matrix_entry",
@@ -952,6 +994,7 @@ impl Scenario for ExportScenario {
             gen_train_world(&mut rng, &mut plan);
             plan.ops.push(Op::new("AddUser"));
             plan.ops.push(Op::new("Gen"));
+            crate::hashseam::begin_plan(&plan);
             let mut ctx = Ctx::new(false);
             let Ok(Some(mut model)) = train(&plan, &mut ctx) else { continue };
             let _ = catch(|| model.read_user_lexicon(plan.file("user.csv")));
@@ -1020,6 +1063,21 @@ fn gen_all(m: &mut Model, ctx: &mut Ctx, prefix: &str) -> Result<(DictFiles, Big
     must_ok(&format!("{prefix}.dict"), "write_dictionary", o, gap, ctx)?;
     let (o, b) = write_bigram_details(m, None, ctx);
     must_ok(&format!("{prefix}.bigram"), "write_bigram_details", o, gap, ctx)?;
+    // triage aid: VSIM_DUMP_DIR=<dir> keeps the emitted files of the last generation (replays only)
+    if let Ok(dir) = std::env::var("VSIM_DUMP_DIR") {
+        let _ = std::fs::create_dir_all(&dir);
+        for (n, x) in [
+            ("lex.csv", &d.lex),
+            ("matrix.def", &d.matrix),
+            ("unk.def", &d.unk),
+            ("user.csv", &d.user),
+            ("bigram.left", &b.left),
+            ("bigram.right", &b.right),
+            ("bigram.cost", &b.cost),
+        ] {
+            let _ = std::fs::write(format!("{dir}/{n}"), x);
+        }
+    }
     Ok((d, b))
 }
 
@@ -1435,6 +1493,17 @@ impl Scenario for SmallDicScenario {
                     // ids used by the emitted lexicon/unk lie inside (the compile verified it); now
                     // every id pair incl. 0
                     let bound = k_templates + 1;
+                    // the dual connector clamps its pre-summed part to 16 bits (C07: "the same value
+                    // whenever the pre-summed part fits in 16 bits"): whatever subset of templates is
+                    // pre-summed, its sum lies between the sum of the negative and the sum of the
+                    // positive per-template costs of the pair; dual == raw is required when both fit
+                    let reference = crate::scen_bigram::parse_bigram(
+                        &String::from_utf8_lossy(&b.right),
+                        &String::from_utf8_lossy(&b.left),
+                        &String::from_utf8_lossy(&b.cost),
+                    )
+                    .filter(|m| m.num_right() == nr && m.num_left() == nl);
+                    let mut presum_may_overflow = 0u64;
                     let r = catch(|| {
                         let mut worst = (0i64, 0usize, 0usize);
                         for r in 0..nr {
@@ -1443,7 +1512,13 @@ impl Scenario for SmallDicScenario {
                                 let cr = i64::from(dr.verif_conn_cost(r as u16, l as u16));
                                 let c1 = i64::from(dd1.verif_conn_cost(r as u16, l as u16));
                                 let c2 = i64::from(dd2.verif_conn_cost(r as u16, l as u16));
-                                if c1 != cr || c2 != cr {
+                                let fits = reference.as_ref().map_or(true, |m| {
+                                    let (neg, pos) = m.signed_sums(r, l);
+                                    neg >= i64::from(i16::MIN) && pos <= i64::from(i16::MAX)
+                                });
+                                if !fits {
+                                    presum_may_overflow += 1;
+                                } else if c1 != cr || c2 != cr {
                                     return Err(format!("dual connector cost(right={r}, left={l}) = {c1}/{c2}, raw connector {cr}"));
                                 }
                                 if (cr - cm).abs() > worst.0 {
@@ -1455,6 +1530,9 @@ impl Scenario for SmallDicScenario {
                     })
                     .map_err(|p| panic_violation("C16.cost", "connection-cost lookups", &p))?;
                     ctx.observations += 1;
+                    if presum_may_overflow > 0 {
+                        ctx.count("probe.pair_whose_presum_may_exceed_16_bits");
+                    }
                     match r {
                         Err(e) => return Err(Violation::new("C16.dual_vs_raw", e)),
                         Ok((diff, r, l)) => {
